@@ -29,7 +29,8 @@ def run_one(prop, name, file, old, new, seed, tier="quick", only=None):
             return {"error": f"pattern occurs {s.count(old)} times"}
         open(p, "w").write(s.replace(old, new))
         env = dict(os.environ, VERIF_REPO=scratch, VERIF_SEED=str(seed), PYTHONHASHSEED="0",
-                   VK_OUT_ROOT=os.path.join(scratch, "out"))
+                   VK_OUT_ROOT=os.path.join(scratch, "out"),
+                   VK_NUMBA_CACHE_BASE=os.path.join(scratch, "numba"))
         cmd = [sys.executable, "-m", "vk", "run", "--property", prop, "--tier", tier]
         if only:
             cmd += ["--only", only]
